@@ -3,12 +3,16 @@
 // Contracts for package hash (see /repo/zz_contracts_verif.go).
 package hash
 
+// C16: computing the key of an execution never panics, whatever the task looks like (a wildcard name reached through
+// an alias has no MATCH, a task may define a MATCH variable of its own ...)
 //@ func Empty
+//@   nopanic                                                        [C16]
 //@   pure
 //@   ensures result.0 == "" && result.1 == nil                      [C06]
 
 // The once key is built from the Taskfile location and the task's local name.
 //@ func Name
+//@   nopanic                                                        [C16]
 //@   pure allocates
 //@   site (*Task).LocalName#0 requires arg0 == t                                                    [C06]
 //@   ensures result.1 == nil                                                                        [C06]
@@ -16,5 +20,6 @@ package hash
 // The when_changed key hashes the whole compiled task with hashstructure's default options (order sensitive,
 // every exported field); what hashstructure covers is examined by the structural clause fields_hashed.
 //@ func Hash
+//@   nopanic                                                        [C16]
 //@   pure allocates
 //@   site v2.Hash#0 requires arg0 == box(type(*ast.Task), t) && arg2 == nil     -- the WHOLE compiled task, its variables included: two calls with different variables are different executions   [C06,C01,C11]
